@@ -37,12 +37,14 @@ def load_source(src, workdir):
     if kind == "yaml_file":
         return nasim.load_scenario(src[1]), yamlread.cs_from_yaml(src[1])
     if kind == "bench_gen":
-        scn = nasim.make_benchmark_scenario(src[1], seed=src[2])
+        from harness import gen
+        scn, _ = gen.make_benchmark(src[1], src[2])
         cs = cs_from_scenario(scn)
         cs["name"] = "%s-s%d" % (src[1], src[2])
         return scn, cs
     if kind == "gen":
-        scn = nasim.generate_scenario(**src[1])
+        from harness import gen
+        scn, _ = gen.generate(src[1])
         cs = cs_from_scenario(scn)
         cs["name"] = src[2]
         return scn, cs
